@@ -210,7 +210,13 @@ def run(rep, repo, tier):
     ext2.update(VTR_EXT)
     run_class(rep, 'R-VEC', mod, 'igris::vector<VTr', vec_spec(SZ_VTR), table(SZ_VTR), FnSpec(), externals=ext2,
               min_methods=35)
-    modf = compile_ir(os.path.join(WIT, 'w_flat.cpp'), repo, exceptions=True)
+    from irlib import keep_known_members
+    flat_known = ('at', 'operator=', 'operator[]', 'begin', 'cbegin', 'cend', 'clear', 'count', 'empty', 'end', 'find', 'flat_map',
+                  'flat_set', 'insert', 'max_size', 'rbegin', 'rend', 'reserve', 'size', 'swap', 'emplace', 'erase', 'contains',
+                  'lower_bound', 'upper_bound', 'data')
+    # member helpers a refactoring may introduce (e.g. a shared private locate()) are folded into their callers
+    modf = compile_ir(os.path.join(WIT, 'w_flat.cpp'), repo, exceptions=True,
+                      inline=keep_known_members(('igris::flat_map<', 'igris::flat_set<'), flat_known))
     rep.units.append('witness/w_flat.cpp -> igris/container/flat_map.h, flat_set.h')
     tempref_rule(rep, modf, ['igris::flat_map<', 'igris::flat_set<'])
     tempref_rule(rep, mod, ['igris::vector<'])
